@@ -568,7 +568,7 @@ fn c04(ctx: &Ctx, gi: usize, ri: usize, rep: &mut Report, note: &dyn Fn(&str)) {
             continue;
         }
         rep.cases += 1;
-        let o = match typed(e, ri, &case.req(what::PP | what::PF | what::CF | what::EQH)) {
+        let o = match typed(e, ri, &case.req(what::PP | what::PF | what::CF | what::EQH | what::TP)) {
             Ok(o) => o,
             Err(p) => {
                 rep.violation(case.violation("typed-panic", "no panic".into(), format!("panic: {}", p), String::new()));
@@ -612,6 +612,17 @@ fn c04(ctx: &Ctx, gi: usize, ri: usize, rep: &mut Report, note: &dyn Fn(&str)) {
                 format!("try_check ok={}", cf.ok),
                 String::new(),
             ));
+        }
+        if let Some((tp, tc, same)) = o.tp {
+            if tp != full || tc != full || !same {
+                rep.violation(case.violation(
+                    &format!("typed-parser-convenience-methods{}", sig_suffix),
+                    format!("full={}", full),
+                    format!("TypedParser::try_parse ok={} try_check ok={} same tree as T::try_parse: {}", tp, tc, same),
+                    String::new(),
+                ));
+            }
+            rep.cell("TypedParser-methods-compared");
         }
         if pf.ok && pf.toks != pp.toks {
             rep.violation(case.violation(
@@ -1969,9 +1980,21 @@ fn c18(ctx: &Ctx, gi: usize, ri: usize, rep: &mut Report, note: &dyn Fn(&str)) {
         }
         // pairs of (sub-)inputs of one string object
         if let (Some(cmp), true) = (cmp, e.all_forms && (input.len() + 1 <= max || ctx.opts.only_input.is_some())) {
-            let forms = forms_of(e, input, true);
+            let mut forms = forms_of(e, input, true);
+            // slices of the string passed as `&str` of their own: different input objects over the same memory
+            let bs = enumerate::boundaries(input);
+            for (i, &a) in bs.iter().enumerate() {
+                for &b in &bs[i..] {
+                    if (a, b) != (0, input.len()) {
+                        forms.push((Form::Slice, a, b));
+                    }
+                }
+            }
             for (i, f1) in forms.iter().enumerate() {
                 for f2 in &forms[i..] {
+                    if f1.0 == Form::Slice && f2.0 == Form::Slice && f1 != f2 {
+                        continue; // two different slice objects: covered through their pairing with the sub-inputs
+                    }
                     rep.cases += 1;
                     let r = std::panic::catch_unwind(|| cmp(input, *f1, *f2));
                     match r {
@@ -1980,8 +2003,18 @@ fn c18(ctx: &Ctx, gi: usize, ri: usize, rep: &mut Report, note: &dyn Fn(&str)) {
                             if f1 != f2 {
                                 rep.nontrivial += 1;
                             }
-                            rep.cell(if eq { "pair-equal" } else { "pair-unequal" });
-                            if eq != deq || (eq && !heq) {
+                            let cross = (f1.0 == Form::Slice) != (f2.0 == Form::Slice);
+                            rep.cell(if cross {
+                                if eq { "cross-object-pair-equal" } else { "cross-object-pair-unequal" }
+                            } else if eq {
+                                "pair-equal"
+                            } else {
+                                "pair-unequal"
+                            });
+                            // same input object: == exactly when structurally identical (same Debug), then equal hashes;
+                            // different input objects: == only if structurally identical
+                            let bad = if cross { eq && !(deq && heq) } else { eq != deq || (eq && !heq) };
+                            if bad {
                                 let c2 = Case {
                                     ctx,
                                     gi,
